@@ -258,7 +258,9 @@ class Body:
             if k == 'goto':
                 ss = [t['t']]
             elif k == 'switch':
-                ss = [c[1] for c in t['cases']] + [t['else']]
+                ss = [c[1] for c in t['cases']]
+                if not self._exhaustive_switch(b, t):
+                    ss.append(t['else'])
             elif k in ('call', 'drop', 'assert'):
                 if t.get('t') is not None:
                     ss = [t['t']]
@@ -269,6 +271,50 @@ class Body:
             self.succs[i] = seen
             for s in seen:
                 self.preds[s].append(i)
+
+    STD_VARIANTS = {'std::option::Option': 2, 'std::result::Result': 2, 'std::ops::ControlFlow': 2}
+
+    def place_ty(self, pl):
+        """Type (as printed by rustc) of a place, as far as the exported projections tell."""
+        ty = self.local_ty(pl['l'])
+        for e in pl['p']:
+            if e == '*':
+                ty = re.sub(r"^&('\w+ )?(mut )?", '', ty)
+            elif isinstance(e, dict) and 'ty' in e:
+                ty = e['ty']
+            elif isinstance(e, dict) and 'dc' in e:
+                pass
+            else:
+                return None
+        return ty
+
+    def _exhaustive_switch(self, blk, t):
+        """The switch tests the discriminant of an enum and has one case per variant: its `otherwise` edge cannot be
+        taken (rustc keeps it when the source has a `_` arm)."""
+        d = t.get('d')
+        if not d or not is_place(d) or op_place(d)['p']:
+            return False
+        dl = op_place(d)['l']
+        src = None
+        for st in reversed(blk['st']):
+            if st['lhs']['l'] == dl and not st['lhs']['p']:
+                src = st['rv']
+                break
+        if src is None or src['k'] != 'discr':
+            return False
+        ty = self.place_ty(src['pl'])
+        if not ty:
+            return False
+        path = re.sub(r'<.*$', '', ty)
+        n = self.STD_VARIANTS.get(path)
+        if n is None and self.facts is not None:
+            a = (self.facts.raw_adts or {}).get(path)
+            if a is not None and a.get('kind') == 'Enum':
+                n = len(a['variants'])
+        if not n:
+            return False
+        vals = set(c[0] for c in t['cases'])
+        return vals == set(range(n))
 
     def term(self, b):
         return self.blocks[b]['term']
@@ -295,25 +341,308 @@ class Body:
                 dq.append(s)
         return seen
 
+    # ---------------------------------------------- path-sensitive reachability
+    def _feas_prep(self):
+        if getattr(self, '_feas', None) is not None:
+            return self._feas
+        borrowed = set()
+        for b in self.blocks:
+            if b['cleanup']:
+                continue
+            for st in b['st']:
+                rv = st['rv']
+                if (rv['k'] == 'ref' and rv.get('mut')) or rv['k'] == 'rawptr':
+                    borrowed.add(rv['pl']['l'])
+        # only locals whose variant can influence a branch are worth tracking: bases of discriminant reads and
+        # switch operands, closed under "is copied / wrapped / `?`-ed into"
+        rel = set()
+        flows = []   # (dst, src)
+        for b in self.blocks:
+            if b['cleanup']:
+                continue
+            for st in b['st']:
+                lhs, rv = st['lhs'], st['rv']
+                if rv['k'] == 'discr':
+                    rel.add(rv['pl']['l'])
+                    rel.add(lhs['l'])
+                elif rv['k'] == 'use' and is_place(rv['a']):
+                    flows.append((lhs['l'], op_place(rv['a'])['l']))
+                elif rv['k'] == 'agg':
+                    for o in rv['ops']:
+                        if is_place(o):
+                            flows.append((lhs['l'], op_place(o)['l']))
+            t = b['term']
+            if t['k'] == 'switch' and is_place(t['d']):
+                rel.add(op_place(t['d'])['l'])
+            elif t['k'] == 'call':
+                fn = ((t.get('f') or {}).get('c') or {}).get('fn') or {}
+                if fn.get('def') == 'std::ops::Try::branch' and t['args'] and is_place(t['args'][0]):
+                    flows.append((t['dest']['l'], op_place(t['args'][0])['l']))
+        changed = True
+        while changed:
+            changed = False
+            for d, s in flows:
+                if d in rel and s not in rel:
+                    rel.add(s)
+                    changed = True
+        # everything not relevant is treated like a borrowed local: never tracked
+        borrowed = borrowed | (set(range(len(self.locals))) - rel)
+        self._feas = borrowed
+        return borrowed
+
+    def _named_locals(self):
+        if getattr(self, '_named', None) is None:
+            self._named = set(v['pl']['l'] for v in self.vars if not v['pl']['p'])
+        return self._named
+
+    def _imm_place_key(self, pl):
+        """Key of a place whose value cannot change during the call: a path under a shared-reference parameter."""
+        cur = self.through_ref(pl)
+        l = cur['l']
+        if not self.is_param(l) or self.kind == 'Closure' and l == 1:
+            return None
+        ty = self.local_ty(l)
+        if not ty.startswith('&') or ty.startswith('&mut'):
+            return None
+        if any(not (e == '*' or (isinstance(e, dict) and ('n' in e or 'dc' in e))) for e in cur['p']):
+            return None
+        # a `*` past the first one could go through a `&mut` field: only plain paths behind the one shared borrow
+        if list(cur['p']).count('*') != 1 or cur['p'][0] != '*':
+            return None
+        return ('P', pstr(cur))
+
+    def _feas_step(self, b, state):
+        """Abstract execution of block b on `state`: returns [(successor, state')].  The state maps
+        ('L', local, path) -> variant index / small constant held at that path of a never-mutably-borrowed local,
+        ('P', place) -> variant of a place behind a shared-reference parameter, and ('D', tmp) -> the key whose
+        discriminant `tmp` holds (so that the switch on tmp refines that key on each edge)."""
+        borrowed = self._feas_prep()
+        st_ = dict(state)
+
+        def kill(l):
+            for k in [k for k in st_ if (k[0] == 'L' and k[1] == l) or (k[0] == 'D' and k[1] == l)]:
+                del st_[k]
+            for k in [k for k, v in st_.items() if k[0] == 'D' and v[0] == 'L' and v[1] == l]:
+                del st_[k]
+
+        def copy_facts(sl, sp, dl, dp):
+            if sl in borrowed:
+                return
+            n = len(sp)
+            for k, v in list(st_.items()):
+                if k[0] == 'L' and k[1] == sl and k[2][:n] == sp:
+                    st_[('L', dl, dp + k[2][n:])] = v
+
+        def plain_path(pl):
+            pn = proj_names(pl)
+            if any(x == '*' or x.startswith('[') or x == '?' for x in pn):
+                return None
+            return tuple(pn)
+        for s in self.blocks[b]['st']:
+            lhs, rv = s['lhs'], s['rv']
+            l = lhs['l']
+            if l in borrowed:
+                # never tracked: nothing known about it, nothing to forget (moves out of tracked locals are handled below)
+                k = rv['k']
+                if k == 'use' and 'mv' in rv['a'] and not rv['a']['mv']['p'] and rv['a']['mv']['l'] not in borrowed:
+                    kill(rv['a']['mv']['l'])
+                elif k == 'agg':
+                    for o in rv['ops']:
+                        if 'mv' in o and not o['mv']['p'] and o['mv']['l'] not in borrowed:
+                            kill(o['mv']['l'])
+                continue
+            if lhs['p']:
+                if lhs['p'][0] != '*':
+                    kill(l)
+                continue
+            # evaluate the right-hand side on the old state, then overwrite
+            new = {}
+            k = rv['k']
+            if l not in borrowed:
+                if k == 'agg' and ('vi' in rv or rv.get('tuple')):
+                    if 'vi' in rv:
+                        new[()] = rv['vi']
+                    for i, o in enumerate(rv['ops']):
+                        if not is_place(o):
+                            continue
+                        opl = op_place(o)
+                        pp = plain_path(opl)
+                        if pp is None or opl['l'] in borrowed:
+                            continue
+                        pre = (('@' + rv['variant'], rv['fields'][i]) if 'vi' in rv and i < len(rv.get('fields', [])) else (str(i),))
+                        n = len(pp)
+                        for kk, v in st_.items():
+                            if kk[0] == 'L' and kk[1] == opl['l'] and kk[2][:n] == pp:
+                                new[pre + kk[2][n:]] = v
+                elif k == 'use':
+                    a = rv['a']
+                    if 'c' in a:
+                        # compiler temporaries (drop flags) are not tracked: they multiply the states for nothing
+                        v = a['c'].get('v') if l in self._named_locals() else None
+                        if isinstance(v, bool):
+                            new[()] = int(v)
+                        elif isinstance(v, int) and 0 <= v < 256:
+                            new[()] = v
+                    else:
+                        pl = op_place(a)
+                        pp = plain_path(pl)
+                        if pp is not None and pl['l'] not in borrowed:
+                            n = len(pp)
+                            for kk, v in st_.items():
+                                if kk[0] == 'L' and kk[1] == pl['l'] and kk[2][:n] == pp:
+                                    new[kk[2][n:]] = v
+                elif k == 'discr':
+                    pl = rv['pl']
+                    pp = plain_path(pl)
+                    key = None
+                    if pp is not None and pl['l'] not in borrowed:
+                        key = ('L', pl['l'], pp)
+                    else:
+                        key = self._imm_place_key(pl)
+                    if key is not None:
+                        if key in st_:
+                            new[()] = st_[key]
+                        new['D'] = key
+            kill(l)
+            # a moved-from local holds nothing any more
+            if k == 'use' and 'mv' in rv['a'] and not rv['a']['mv']['p']:
+                kill(rv['a']['mv']['l'])
+            elif k == 'agg':
+                for o in rv['ops']:
+                    if 'mv' in o and not o['mv']['p']:
+                        kill(o['mv']['l'])
+            for pth, v in new.items():
+                if pth == 'D':
+                    st_[('D', l)] = v
+                else:
+                    st_[('L', l, pth)] = v
+        t = self.blocks[b]['term']
+        k = t['k']
+        out = []
+        if k == 'switch':
+            d = t['d']
+            dl = op_local(d) if is_place(d) and not op_place(d)['p'] else None
+            val = st_.get(('L', dl, ())) if dl is not None else None
+            link = st_.get(('D', dl)) if dl is not None else None
+            cvals = [c[0] for c in t['cases']]
+            for v, tgt in t['cases']:
+                if val is not None and val != v:
+                    continue
+                s2 = dict(st_)
+                if dl is not None and dl not in borrowed:
+                    s2[('L', dl, ())] = v
+                if link is not None:
+                    s2[link] = v
+                out.append((tgt, s2))
+            if not (val is not None and val in cvals):
+                out.append((t['else'], st_))
+            return out
+        if k == 'call':
+            dest = t['dest']
+            new = {}
+            if not dest['p'] and dest['l'] not in borrowed:
+                fn = ((t.get('f') or {}).get('c') or {}).get('fn') or {}
+                dp = fn.get('def') or ''
+                sty = fn.get('self_ty') or ''
+                if dp == 'std::ops::Try::branch' and t['args'] and is_place(t['args'][0]):
+                    apl = op_place(t['args'][0])
+                    pp = plain_path(apl)
+                    if pp is not None and apl['l'] not in borrowed:
+                        isres = sty.startswith('std::result::Result<')
+                        isopt = sty.startswith('std::option::Option<')
+                        av = st_.get(('L', apl['l'], pp))
+                        if av is not None and (isres or isopt):
+                            new[()] = av if isres else 1 - av     # Ok(0)/Some(1) -> Continue(0); Err(1)/None(0) -> Break(1)
+                        good = pp + (('@Ok', '0') if isres else ('@Some', '0'))
+                        n = len(good)
+                        if isres or isopt:
+                            for kk, v in st_.items():
+                                if kk[0] == 'L' and kk[1] == apl['l'] and kk[2][:n] == good:
+                                    new[('@Continue', '0') + kk[2][n:]] = v
+                elif dp == 'std::ops::FromResidual::from_residual':
+                    if sty.startswith('std::result::Result<'):
+                        new[()] = 1
+                    elif sty.startswith('std::option::Option<'):
+                        new[()] = 0
+            if dest['l'] not in borrowed:
+                kill(dest['l'])
+            for pth, v in new.items():
+                st_[('L', dest['l'], pth)] = v
+        for s in self.succs[b]:
+            out.append((s, st_))
+        return out
+
+    def reach_feasible(self, start, avoid_edges=(), avoid_blocks=()):
+        """Blocks reachable from `start` along paths that are consistent on the variants / small constants held by
+        never-borrowed locals and by places behind shared-reference parameters (a `match` on the same scrutinee twice
+        takes the same arm twice; an `Ok(..)` built on one path is not seen as `Err` by the `?` that follows).
+        Over-approximates real reachability, under-approximates plain CFG reachability."""
+        avoid_edges = set(avoid_edges)
+        avoid_blocks = set(avoid_blocks)
+        starts = [start] if isinstance(start, int) else list(start)
+        seen_states = {}
+        seen = set()
+        work = deque()
+        for s in starts:
+            if s not in avoid_blocks:
+                work.append((s, frozenset()))
+        CAP = 200
+        while work:
+            b, fs = work.popleft()
+            ss = seen_states.setdefault(b, set())
+            if fs in ss or frozenset() in ss:
+                continue
+            if len(ss) >= CAP:
+                fs = frozenset()
+            ss.add(fs)
+            seen.add(b)
+            for (s, st2) in self._feas_step(b, dict(fs)):
+                if (b, s) in avoid_edges or s in avoid_blocks or self.cleanup[s]:
+                    continue
+                work.append((s, frozenset(st2.items())))
+        return seen
+
     def reach_from_succ(self, b, s, **kw):
         """Blocks reachable after taking edge b->s."""
         return self.reach(s, **kw)
 
     def edge_dominates(self, edge, target):
         """Every path entry -> target takes `edge` (target reachable at all)."""
-        r = self.reach(0, avoid_edges=[edge])
-        return target not in r
+        return target not in self._reach_avoiding(frozenset([tuple(edge)]), frozenset(), target)
 
     def edges_dominate(self, edges, target):
         """Every path entry -> target takes at least one of `edges`."""
-        r = self.reach(0, avoid_edges=list(edges))
-        return target not in r
+        return target not in self._reach_avoiding(frozenset(tuple(e) for e in edges), frozenset(), target)
 
     def block_dominates(self, a, target):
         if a == target:
             return True
-        r = self.reach(0, avoid_blocks=[a])
-        return target not in r
+        return target not in self._reach_avoiding(frozenset(), frozenset([a]), target)
+
+    def dominated_by_edge(self, edge):
+        """All live blocks every path to which takes `edge`."""
+        live = self.live_blocks()
+        r = self._reach_avoiding(frozenset([tuple(edge)]), frozenset(), None)
+        return set(b for b in live if b not in r)
+
+    def dominated_by_block(self, a):
+        live = self.live_blocks()
+        r = self._reach_avoiding(frozenset(), frozenset([a]), None)
+        return set(b for b in live if b not in r) | {a}
+
+    def _reach_avoiding(self, edges, blocks, target):
+        """Blocks reachable from the entry without the given edges / blocks: the plain CFG answer when it already excludes
+        `target`, otherwise the path-sensitive one.  Both are cached per (edges, blocks)."""
+        cache = self.__dict__.setdefault('_ra_cache', {})
+        key = (edges, blocks)
+        ent = cache.get(key)
+        if ent is None:
+            ent = cache[key] = [self.reach(0, avoid_edges=edges, avoid_blocks=blocks), None]
+        if target is not None and target not in ent[0]:
+            return ent[0]
+        if ent[1] is None:
+            ent[1] = self.reach_feasible(0, avoid_edges=edges, avoid_blocks=blocks)
+        return ent[1]
 
     def return_blocks(self):
         live = self.live_blocks()
@@ -503,13 +832,19 @@ class Body:
 
 
 class Facts:
-    def __init__(self, path):
+    def __init__(self, path, view='plain'):
         with open(path) as f:
             d = json.load(f)
         self.path = path
+        self.view = view
+        from . import inline
+        self.inline_report = inline.transform(d)
+        if view == 'expanded':
+            self.inline_report['expanded_closures'] = inline.expand_call_once(d)
         self.crate = d['crate']
         self.features = d['features']
         self.raw = d
+        self.raw_adts = {a['path']: a for a in d['adts']}
         self.bodies = {}
         for b in d['bodies']:
             self.bodies[b['key']] = Body(b, self)
@@ -602,8 +937,10 @@ def backward_slice(body, start, stop_call=None, follow_mutarg=True, max_nodes=50
     sl = Slice(body)
     defs = body.defs()
     work = deque()
+    # Work items are (local, path): `path` is the field path of the part of the local that is needed (() = all of it).
+    # Aggregates, `?` and partial assignments are followed field-sensitively: the `.1` of `(a, b)` depends on b only.
 
-    def push_op(op):
+    def push_op(op, path=()):
         if op is None:
             return
         if 'c' in op:
@@ -611,63 +948,109 @@ def backward_slice(body, start, stop_call=None, follow_mutarg=True, max_nodes=50
             return
         pl = op_place(op)
         if pl is not None:
-            push_place(pl)
+            push_place(pl, path)
 
-    def push_place(pl):
+    def push_place(pl, path=()):
         sl.places.append(pl)
-        work.append(pl['l'])
+        fp = field_path(pl)
+        if any(isinstance(e, dict) and ('idx' in e or 'cidx' in e or 'sub_from' in e) for e in pl['p']):
+            work.append((pl['l'], ()))
+        else:
+            work.append((pl['l'], tuple(fp) + tuple(path)))
         for e in pl['p']:
             if isinstance(e, dict) and 'idx' in e:
-                work.append(e['idx'])
+                work.append((e['idx'], ()))
 
     for s in start:
         if isinstance(s, int):
-            work.append(s)
+            work.append((s, ()))
         elif isinstance(s, dict) and ('l' in s and 'p' in s):
             push_place(s)
         else:
             push_op(s)
     seen_calls = set()
+    seen = set()
     while work and len(sl.locals) < max_nodes:
-        l = work.popleft()
-        if l in sl.locals:
+        l, path = work.popleft()
+        if len(path) > 8:
+            path = ()
+        if (l, path) in seen or (l, ()) in seen:
             continue
+        seen.add((l, path))
         sl.locals.add(l)
         if body.is_param(l):
             sl.params.add(l)
         for d in defs.get(l, []):
             if d.kind == 'mutarg' and not follow_mutarg:
                 continue
-            sl.rvs.append(d)
             if d.kind == 'assign':
                 rv = d.rv
                 k = rv['k']
+                p2 = path
+                lfp = tuple(field_path(d.lhs)) if d.lhs is not None and d.lhs['l'] == l and d.via is None else ()
+                if lfp:
+                    # a write into part of the local: relevant only if it overlaps the part that is needed
+                    n = min(len(lfp), len(path))
+                    if lfp[:n] != path[:n]:
+                        continue
+                    p2 = path[len(lfp):] if len(path) >= len(lfp) else ()
+                elif d.via is not None:
+                    p2 = ()
+                sl.rvs.append(d)
                 if k == 'use':
-                    push_op(rv['a'])
-                elif k in ('ref', 'rawptr', 'discr'):
+                    push_op(rv['a'], p2)
+                elif k in ('ref', 'rawptr'):
+                    push_place(rv['pl'], p2)
+                elif k == 'discr':
                     push_place(rv['pl'])
                 elif k == 'agg':
+                    ops = rv['ops']
+                    sel = None
+                    if p2:
+                        h = p2[0]
+                        if rv.get('tuple') and h.isdigit() and int(h) < len(ops):
+                            sel = (int(h), p2[1:])
+                        elif 'vi' in rv and h.startswith('@'):
+                            if h != '@' + rv['variant']:
+                                continue          # another variant: this definition cannot supply the needed part
+                            if len(p2) > 1 and p2[1] in rv.get('fields', []):
+                                sel = (rv['fields'].index(p2[1]), p2[2:])
+                        elif 'adt' in rv and h in rv.get('fields', []):
+                            sel = (rv['fields'].index(h), p2[1:])
                     sl.aggs.append(rv)
-                    for o in rv['ops']:
-                        push_op(o)
+                    if sel is not None:
+                        push_op(ops[sel[0]], sel[1])
+                    else:
+                        for o in ops:
+                            push_op(o)
                 elif k == 'bin':
                     push_op(rv['a'])
                     push_op(rv['b'])
                 elif k in ('un', 'cast', 'repeat'):
-                    push_op(rv['a'])
+                    push_op(rv['a'], p2 if k == 'cast' else ())
             else:
                 c = d.call
-                if id(c) in seen_calls:
-                    continue
-                seen_calls.add(id(c))
-                sl.calls.append(c)
+                if d.kind == 'call' and c.defp == 'std::ops::FromResidual::from_residual' and path and path[0] in ('@Ok', '@Some', '@Continue'):
+                    continue      # builds an Err / None: cannot supply the success payload that is needed
+                sl.rvs.append(d)
+                first = id(c) not in seen_calls
+                if first:
+                    seen_calls.add(id(c))
+                    sl.calls.append(c)
                 if stop_call is not None and stop_call(c):
                     continue
+                if d.kind == 'call' and c.defp == 'std::ops::Try::branch' and c.args and path[:2] == ('@Continue', '0'):
+                    # `x?`: the continue payload is the Ok / Some payload of x
+                    sty = c.self_ty or ''
+                    inner = ('@Ok', '0') if sty.startswith('std::result::Result<') else (('@Some', '0') if sty.startswith('std::option::Option<') else None)
+                    if inner is not None:
+                        push_op(c.args[0], inner + tuple(path[2:]))
+                        continue
                 for a in c.args:
                     push_op(a)
                 il = c.indirect_local()
                 if il is not None:
-                    work.append(il)
+                    work.append((il, ()))
     return sl
 
 
